@@ -62,6 +62,28 @@ pub fn tie_graphs(rng: &mut ChaCha8Rng, thorough: bool) -> Vec<Value> {
         let w: Vec<i64> = if i % 2 == 0 { vec![] } else { vec![1, 2] };
         out.push(case_json(specs, &crate::cases::random_graph(rng, specs, n, 0.35, &w), "random"));
     }
+    // two concrete graphs on which seeded Louvain was observed to give different answers from call to
+    // call (known finding F-C17-2), repeated often enough to show it on every run
+    for (directed, es) in [
+        (true, vec![(3, 2, 7, 0), (3, 1, 3, 0), (1, 3, 1, 0), (1, 2, 1, 0)]),
+        (false, vec![(5, 4, 9, 0), (5, 3, 3, 0), (4, 6, 3, 0), (4, 1, 13, 0), (1, 2, 1, 0), (5, 2, 13, 0), (3, 4, 13, 0), (3, 1, 7, 0), (2, 4, 9, 0), (5, 1, 13, 0), (3, 2, 13, 0)]),
+    ] {
+        let ns: Vec<NodeArg> = if directed { vec![(1, 0), (3, 0), (2, 0)] } else { vec![(4, 0), (6, 0), (3, 0), (2, 0), (1, 0), (5, 0)] };
+        let mut case = case_json(sp(directed), &[Op::AddNodes(ns), Op::AddEdges(es)], "frac");
+        case["wdiv"] = json!(10);
+        case["runs"] = json!(300);
+        case["seeds"] = json!(4);
+        out.push(case);
+    }
+    // weights that are not dyadic (multiples of 1/10): sums of such weights depend on the order of
+    // addition in the last bits, so any unordered accumulation can change which gain wins
+    for i in 0..(if thorough { 80 } else { 24 }) {
+        let specs = sp(i % 2 == 0);
+        let n = rng.gen_range(3..=7);
+        let mut case = case_json(specs, &crate::cases::random_graph(rng, specs, n, 0.6, &[1, 3, 7, 9, 13]), "frac");
+        case["wdiv"] = json!(10);
+        out.push(case);
+    }
     out
 }
 
@@ -100,7 +122,8 @@ pub fn repro_events<W: Write>(em: &mut Emitter<W>, thorough: bool, seed: u64) {
     let n_proc = if thorough { 20 } else { 5 };
     let mut pool = Pool::new();
     for case in tie_graphs(&mut rng, thorough) {
-        for sd in 0..(if thorough { 4 } else { 2 }) {
+        let n_in = case["runs"].as_u64().unwrap_or(n_in);
+        for sd in 0..case["seeds"].as_u64().unwrap_or(if thorough { 4 } else { 2 }) {
             let weighted = case["ops"][1]["es"].as_array().map(|a| !a.is_empty() && a[0][2].as_i64().unwrap() != NAN_W).unwrap_or(false);
             let call = json!({"weighted": weighted, "res": [1, 1], "res_default": true, "threshold_e7": -1, "seed": sd});
             let mut all: Vec<Value> = vec![];
